@@ -94,15 +94,16 @@ func vC10_sequence() {
 	var model [4][4]bool // model[w][t]: w watches t
 	model[0][1], model[0][2], model[0][3] = true, true, true // a parent watches its children
 	for k := 0; k < K; k++ {
-		w, t := vChoose("watcher", 4), vChoose("watchee", 4)
-		vAssume(w != t)
-		if vNondetBool("unwatch") {
-			p[w].UnWatch(p[t])
-			model[w][t] = false
+		ww, tt := vChoose("watcher", 4), vChoose("watchee", 4)
+		vAssume(ww != tt)
+		un := vNondetBool("unwatch")
+		if un {
+			p[ww].UnWatch(p[tt])
+			model[ww][tt] = false
 			vCover("unwatch")
 		} else {
-			p[w].Watch(p[t])
-			model[w][t] = true
+			p[ww].Watch(p[tt])
+			model[ww][tt] = true
 			vCover("watch")
 		}
 	}
@@ -131,6 +132,11 @@ func vC10_sequence() {
 			p[w].setState(passivatingState, true)
 		}
 	}
+	vC10_terminate(tr, &p, t, &model, &mode)
+	vCover("end")
+}
+
+func vC10_terminate(tr *tree, p *[4]*PID, t int, model *[4][4]bool, mode *[4]int) {
 	dead := p[t]
 	vT_sent = nil
 	dead.freeWatchers(context.Background())
@@ -162,5 +168,4 @@ func vC10_sequence() {
 	vT_sent = nil
 	dead.freeWatchers(context.Background())
 	vAssert(len(vT_sent) == 0, "running freeWatchers again (another termination path) notifies nobody a second time")
-	vCover("end")
 }
